@@ -318,7 +318,9 @@ def _get_OP_PUSH0_type_args(
                 f'{opname} - value prefaced by d must be decimal int; {val} is '
                 f'invalid - symbol {symbol_index}')
             val = int_to_bytes(int(val[1:].split('.')[0]))
-            assert len(val) == 1, 'value overflow'
+            vert(len(val) == 1,
+                f'{opname} - value overflow; {symbols[0]} does not fit in '
+                f'one signed byte - symbol {symbol_index}')
             args.append(val)
         case 'x':
             vert(len(val[1:]) <= 2,
